@@ -24,6 +24,8 @@ device (any plug list, any script table), every command slot and every target li
 * `C01_wire_*`            — what a `send` writes: the configured plug name / the ranged plug names / no name;
 * `C01_request`           — the target list `install` receives from `_parse_input` is the expansion of the host range
                             the client typed (every name a configured node), or all configured nodes for a bare query;
+* `C01_too_long_never_acts` — a request line of `CP_LINEMAX` (131072) bytes or more is refused (203) before it is looked
+                            at: no device receives anything on its behalf, whatever it says;
 * `C01_foreach_in_singlet_counterexample` — the limit: a singlet script containing `foreachplug` walks all plugs.
 
 Not in the model: `conf_exp_aliases` (the model covers configurations without `alias` lines).  The theorems about
@@ -217,6 +219,27 @@ theorem C01_request (w : W) (c : Cli) (line : Bytes) :
        (∃ arg hl, scan (kwOf com) (stripWs (line.takeWhile (· != 0))) = some arg ∧ createR (toChars arg) = .ok hl ∧
           names = expand hl ∧ ∀ n ∈ names, (find w.cfg.nodes n).isSome = true)) :=
   parseLine_cases w c line
+
+/-- **A line that is too long never acts.**  `_parse_input` tests `strlen(str) >= CP_LINEMAX` (131072) on the stripped line
+    before anything else: such a line — whatever command and targets it spells, whatever the client's state — is answered
+    `203 Command too long` (and the prompt) and that is all: every device (queue, buffers, connection) is exactly as it
+    was, no argument list is created, the client's command (if any) is untouched.  (Corollary of `C06_too_long`.) -/
+theorem C01_too_long_never_acts (w : W) (c : Cli) (line : Bytes)
+    (h : (stripWs (line.takeWhile (· != 0))).length ≥ 131072) :
+    (parseLine w c line).1.devs = w.devs ∧ (parseLine w c line).1.store = w.store ∧
+    (parseLine w c line).1.alNext = w.alNext ∧ (parseLine w c line).2.cmd = c.cmd := by
+  rw [parseLine_tooLong_eq w c line h]; exact ⟨rfl, rfl, rfl, rfl⟩
+
+/-- non-vacuity: `off `, 131072 times `x`, LF — 131076 bytes once stripped (the bound is on the whole stripped line, keyword
+    included) -/
+example : (stripWs ((bstr "off " ++ List.replicate 131072 120 ++ [10]).takeWhile (· != 0))).length ≥ 131072 := by
+  rw [strip_long (bstr "off ") 131071 (by decide +kernel) (by decide +kernel), List.length_append, List.length_replicate]
+  decide +kernel
+/-- the same request from client 5 of `exW` (which `off n[1,3]` does act on, see the last example of this file) -/
+example : (parseLine exW exC (bstr "off " ++ List.replicate 131072 120 ++ [10])).1.devs = exW.devs :=
+  (C01_too_long_never_acts exW exC _ (by
+    rw [strip_long (bstr "off ") 131071 (by decide +kernel) (by decide +kernel), List.length_append, List.length_replicate]
+    decide +kernel)).1
 
 /-- The limit of the property.  `_process_foreach` walks the plug list of the *device* for every action that is not of
     a `_ranged` kind.  Request `off n3` on a device with plugs "1" ↦ n1 and "3" ↦ n3 whose singlet `off` script is
